@@ -807,6 +807,35 @@ def _lossy_key_params(idx: Index, m, fi, du, key_e: ast.AST, w: ast.Assign, tnam
     return out
 
 
+def _rule_j_instance(res: Results, idx: Index, m, fi, du, w: ast.Assign, tname: str, params: Set[str]) -> None:
+    key_e = w.targets[0].slice  # type: ignore[attr-defined]
+    key_deps = (du.closure(names_in(key_e)) | names_in(key_e)) & params
+    lossy = _lossy_key_params(idx, m, fi, du, key_e, w, tname, key_deps)
+    if not lossy:
+        # a helper that names classes and functions by `__module__` / `__name__` (and falls back to repr() for other objects) is
+        # name-derived for everything that can be decorated
+        kex = [key_e] + [d.value for nm in du.closure(names_in(key_e)) for d in du.defs.get(nm, []) if d.value is not None]
+        for e in kex:
+            for c in ast.walk(e):
+                if isinstance(c, ast.Call):
+                    hit = [a.id for a in c.args if isinstance(a, ast.Name) and a.id in key_deps]
+                    g = idx.resolve_func(m, call_name(c) or "") if hit else None
+                    if g is not None and any(isinstance(x, ast.Attribute) and x.attr in ("__name__", "__qualname__") for x in ast.walk(g.node)):
+                        lossy = [(hit[0], f"its `__name__` (inside {g.qualname}())")]
+    if not lossy:
+        return
+    p0, how = lossy[0]
+    key = f"{m.rel}::{fi.qualname}::registry-reuse::{tname}"
+    site = f"{m.rel}:{w.lineno}"
+    checks = [c for c in walk_no_nested(fi.node) if isinstance(c, ast.Compare) and len(c.ops) == 1 and isinstance(c.ops[0], (ast.Is, ast.IsNot, ast.Eq, ast.NotEq))
+              and ((isinstance(c.left, ast.Name) and c.left.id == p0 and isinstance(c.comparators[0], ast.Attribute)) or (isinstance(c.comparators[0], ast.Name) and c.comparators[0].id == p0 and isinstance(c.left, ast.Attribute)))]
+    if checks:
+        res.ok("R-C14j", site, key, f"the entry found under the name-derived key is compared with `{p0}` (`{src(checks[0], 50)}`) before it is reused", fi.qualname)
+    else:
+        res.violation("R-C14j", site, key, f"`{tname}` is keyed by `{src(key_e, 30)}`, which sees `{p0}` only through {how}; an entry found under that key is reused without comparing the object it was created for with `{p0}`: "
+                      "a second, different object of the same name silently gets the first one's entry (its own registration is dropped), so the export of one and the same request depends on what was decorated earlier in the process", fi.qualname)
+
+
 def rule_g(res: Results, idx: Index) -> None:
     """A module-level memo table makes a later request depend on earlier ones unless its key determines the memoised value.
     For every function that both reads (`M.get(K)`, `M[K]`, `K in M`) and writes (`M[K] = V`) a module-level mapping, every
@@ -814,6 +843,7 @@ def rule_g(res: Results, idx: Index) -> None:
     into the value but not into the key is answered from the first call for every later call that differs only there
     (an abstract-eval memo that forgot `promote_integers` returned the promoted dtype for the unpromoted call)."""
     res.rule("R-C14g", "memo tables are keyed by every parameter the memoised value depends on", floor=1)
+    res.rule("R-C14j", "a registry entry found under a name-derived key is reused only after comparing the object it was created for with the new one", floor=1)
     n = 0
     for m in idx.product_modules():
         tables: Set[str] = set()
@@ -851,7 +881,11 @@ def rule_g(res: Results, idx: Index) -> None:
                     continue
                 from .c13 import _only_called_at_decoration
                 if _only_called_at_decoration(idx, fi) or fi.name in ("onnx_function", "register_primitive", "register_example"):
-                    continue   # registration tables filled when the user decorates something: not export history
+                    # registration tables filled when the user decorates something are not memos of export results; but an entry
+                    # found under a NAME-derived key and reused for another object makes later exports depend on what was
+                    # decorated before (R-C14j): the reuse path has to compare the recorded object with the new one
+                    _rule_j_instance(res, idx, m, fi, du, writes[0], tname, params)
+                    continue
                 n += 1
                 w = writes[0]
                 key_e = w.targets[0].slice
